@@ -236,6 +236,25 @@ package parse
 // Parse-tree accessors used by the compiler: pure (they modify nothing).
 //@ func (Node).Name
 //@   nopanic
+//@   ensures result == node_name(self)
+//@ func (Node).Root
+//@   nopanic
+//@   ensures result == node_root(self)
+//@ func (Node).UsesRoot
+//@   nopanic
+//@   ensures result == node_usesroot(self)
+//@ func (Node).Prefix
+//@   nopanic
+//@   ensures result == node_prefix(self)
+//@ func (Node).Ns
+//@   nopanic
+//@   ensures result == node_ns(self)
+//@ func (Node).ChildrenByType
+//@   params t
+//@   ensures result == node_children_of(self, t)
+//@ func (Node).Clone
+//@   params m
+//@   ensures result != nil
 //@ func (Node).Type
 //@   nopanic
 //@   ensures result == node_type(self)
@@ -356,3 +375,70 @@ package parse
 //@   loop 0 invariant iff(wsCount == 0, looppos == 0) && forall(k, 0, looppos, isBlank(s[k]))
 //@   loop 0 invariant wsCount >= looppos && (wsCount == looppos || exists(k, 0, looppos, s[k] == '\t'))
 //@   loop 0 invariant implies(looppos >= 1 && s[0] == '\t', wsCount >= 8)
+
+// ---------------------------------------------------------------------------
+// Module of definition vs. module of use (C12, C15). Root() is the module in which a statement is
+// textually written, UsesRoot() the module that uses it when it was copied from a grouping.
+//@ func (*node).Root
+//@   requires n != nil
+//@   nopanic
+//@   ensures result == ite(n.tree == nil, nil, n.tree.Root)
+//@ func (*node).UsesRoot
+//@   requires n != nil
+//@   nopanic
+//@   ensures implies(n.useTree != nil, result == n.useTree.Root)
+//@   ensures implies(n.useTree == nil, result == ite(n.tree == nil, nil, n.tree.Root))
+
+// Clone copies a subtree for use by module m: every copy is a new object that keeps the tree of its
+// definition (so that prefixes keep resolving where the text was written) and is re-homed to m's tree;
+// the original is not modified (the grouping stays reusable).
+//@ func (*node).Clone
+//@   requires n != nil && forall(k, 0, len(n.children), n.children[k] != nil) && implies(m != nil, is(m, *node) && m.(*node) != nil)
+//@   ensures is(result, *node) && isfresh(result.(*node))
+//@   ensures result.(*node).tree == n.tree && result.(*node).stmt == n.stmt && result.(*node).NodeType == n.NodeType && result.(*node).Pos == n.Pos
+//@   ensures implies(m != nil, result.(*node).useTree == m.(*node).tree) && implies(m == nil, result.(*node).useTree == n.useTree)
+//@   ensures len(result.(*node).children) == len(n.children) && isfresh(result.(*node).children)
+//@   loop 0 invariant len(t0.children) == loopidx + 1 && isfresh(t0.children) && t0.tree == n.tree && t0.stmt == n.stmt && t0.NodeType == n.NodeType && t0.Pos == n.Pos
+//@   loop 0 invariant implies(m != nil, t0.useTree == m.(*node).tree) && implies(m == nil, t0.useTree == n.useTree)
+
+// Prefix resolution: the empty prefix and the module's own prefix denote the module of definition; any other
+// prefix must be the prefix of one of ITS imports; an unknown prefix is an error (unless unknown modules are skipped).
+//@ define imports(n) = typed(node_children_of(n, NodeImport), []Node)
+//@ func getPfxName
+//@   requires n != nil
+//@   ensures iff(result1, exists(k, 0, len(imports(n)), node_prefix(imports(n)[k]) == pfx))
+//@   loop 0 invariant forall(k, 0, loopidx+1, node_prefix(imports(n)[k]) != pfx)
+//@ func (*node).GetModuleByPrefix
+//@   requires n != nil && n.tree != nil && n.tree.Root != nil
+//@   modifies *
+//@   ensures implies(pfx == "" || old(node_prefix(n.tree.Root)) == pfx, result0 == old(n.tree.Root) && result1 == nil)
+//@   ensures implies(pfx != "" && old(node_prefix(n.tree.Root)) != pfx && !skipUnknown &&
+//@           !old(exists(k, 0, len(imports(n.tree.Root)), node_prefix(imports(n.tree.Root)[k]) == pfx)), result1 != nil)
+
+// The namespace of a node is that of the module that USES it (grouping copies), the belongs-to module's for a
+// submodule; a prefix inside an expression is mapped through the imports of the module of DEFINITION.
+//@ func getNodeNamespaceInternal
+//@   requires n != nil
+//@   ensures implies(node_usesroot(n) != nil && node_type(node_usesroot(n)) != NodeSubmodule, result1 == nil && result0 == node_ns(node_usesroot(n)))
+//@   ensures implies(node_usesroot(n) == nil && node_root(n) != nil, result1 == nil && result0 == node_ns(node_root(n)))
+//@   ensures implies(node_usesroot(n) == nil && node_root(n) == nil, result1 != nil)
+//@ func (Namespace).GetModuleByPrefix
+//@   params pfx modules skipUnknown
+//@   modifies *
+//@   ensures result0 == node_mod_by_prefix(self, pfx) && result1 == node_mod_by_prefix_err(self, pfx)
+//@ func (*node).YangPrefixToNamespace
+//@   requires n != nil && n.tree != nil && n.tree.Root != nil
+//@   modifies *
+//@   ensures implies(prefix != "" && old(node_prefix(n.tree.Root) == prefix) && node_root(old(n.tree.Root)) != nil, result1 == nil && result0 == node_ns(node_root(old(n.tree.Root))))
+//@   ensures implies(prefix != "" && old(node_prefix(n.tree.Root) != prefix) && !skipUnknown &&
+//@           !old(exists(k, 0, len(imports(n.tree.Root)), node_prefix(imports(n.tree.Root)[k]) == prefix)), result1 != nil)
+//@ func createFakeModule
+//@   assumed
+//@   modifies *
+//@   ensures result != nil
+//@ func (Namespace).YangPrefixToNamespace
+//@   params prefix modules skipUnknown
+//@   modifies *
+//@   ensures result0 == node_pfx_ns(self, prefix) && result1 == node_pfx_err(self, prefix)
+//@ func (Node).Path
+//@   ensures result == node_path(self)
